@@ -88,6 +88,10 @@ def _judge_store(ctx: Ctx, c: Collector, fi: FuncInfo, s: Summary, e: Event, tna
                 if old == call(("attr", table, "get"), key, new):
                     c.ok("store", fi.qualname, construct, "min(existing-or-new, new)", loc)
                     return
+        gets = [x for x in T.subterms(val) if x[0] == "call" and x[1][0] == "attr" and x[1][2] == "get" and x[1][1][0] == "attr" and x[1][1][2] in MIN_FIELDS]
+        if gets and all(g[1][1] != table or g[2][:1] != (key,) for g in gets):
+            c.bad("store", fi.qualname, construct, f"the minimum is taken with {T.show(gets[0])[:80]}, which is not the existing entry of the table and key that is written", loc)
+            return
         c.unk("store", fi.qualname, construct, "min(...) form not recognised", loc)
         return
     if val[0] == "agg" and val[1] == "max":
